@@ -471,7 +471,7 @@ Lemma frag_run_len t0 m k steps : forall nid iv dr mail,
   (length (fr_steps (snd (fst (fst (fst (frag_run t0 nid m k iv steps dr mail)))))) <= length steps)%nat.
 Proof.
   induction steps as [|st r IH]; intros nid iv dr mail; cbn [frag_run]; [cbn; lia|].
-  destruct st as [d|t|d v| | | | |polled d1 d2|d| |ch d| |d ch| | | ]; cbn [fst snd fr_steps length]; try lia;
+  destruct st as [d|t|d v| | | | |polled d1 d2|d| |ch d| |d ch| | | | ]; cbn [fst snd fr_steps length]; try lia;
   try (destruct v as [x|]; cbn [fst snd fr_steps length]; try lia);
   try (destruct iv as [i|]; cbn [fst snd fr_steps length]; try lia);
   try (destruct (mail_take m ch mail) as [[s0 mail0]|]; cbn [fst snd fr_steps length]; try lia);
@@ -549,7 +549,7 @@ Qed.
 
 Lemma aw_kind_idle a iv : aw_kind a iv -> a <> AwTick -> iv_idle iv.
 Proof.
-  destruct a as [s|v dl|biased tie sa sb| | | | |rearm d3 s sx|pre s]; try contradiction; cbn [aw_kind]; try (intros H _; exact H).
+  destruct a as [s|v dl|biased tie sa sb| | | | |rearm d3 s sx|pre s|kr chi cho]; try contradiction; cbn [aw_kind]; try (intros H _; exact H).
   - destruct v; try contradiction; intros H _; exact H.
   - intros [H _] _; exact H.
   - intros [H _] _; exact H.
@@ -557,7 +557,7 @@ Qed.
 
 Lemma iv_after_idle a iv : aw_kind a iv -> iv_idle (iv_after a iv).
 Proof.
-  intros Hk. destruct a as [s|v dl|biased tie sa sb| | | | |rearm d3 s sx|pre s]; try contradiction; cbn [iv_after];
+  intros Hk. destruct a as [s|v dl|biased tie sa sb| | | | |rearm d3 s sx|pre s|kr chi cho]; try contradiction; cbn [iv_after];
     try (apply (aw_kind_idle _ _ Hk); discriminate).
   destruct iv as [i|]; [reflexivity|exact I].
 Qed.
@@ -571,7 +571,7 @@ Qed.
 (* when the woken task does not block again, its await completes at the wake instant *)
 Lemma aw_end_noreblock a iv arr t : aw_kind a iv -> waits_on (Some a) = None -> aw_wake a iv = t -> aw_reblock t a = None -> aw_end a iv arr = t.
 Proof.
-  intros Hk Hnw Hw Hrb. destruct a as [s|v dl|biased tie sa sb| | | | |rearm d3 s sx|pre s]; try contradiction; try exact Hw.
+  intros Hk Hnw Hw Hrb. destruct a as [s|v dl|biased tie sa sb| | | | |rearm d3 s sx|pre s|kr chi cho]; try contradiction; try exact Hw.
   - destruct v; try contradiction; [exact Hw|discriminate Hnw].
   - destruct Hk as [_ Hd3]. cbn [aw_wake] in Hw. cbn [aw_end].
     destruct (deadline s <=? deadline sx) eqn:E; [lia|].
@@ -663,7 +663,7 @@ Proof.
       + replace (deadline s1 <=? t) with false by lia. reflexivity.
       + replace (deadline s1 <=? t) with true by lia. reflexivity. }
   assert (Hw' : waits_on (Some a) = None -> aw_wake a iv = t) by (intros Hnone; destruct Hw as [Hw|[Hw _]]; [exact Hw|contradiction]).
-  destruct a as [s|v dl|biased tie sa sb| | | | |rearm d3 s sx|pre s]; try contradiction.
+  destruct a as [s|v dl|biased tie sa sb| | | | |rearm d3 s sx|pre s|kr chi cho]; try contradiction.
   - specialize (Hw' eq_refl). clear Hw. rename Hw' into Hw. cbn [aw_done]. apply (Hsingle s); [reflexivity|exact Hw].
   - destruct v as [s| |ch|]; try contradiction; cycle 1.
     { (* a receive: woken by its message before the deadline -- the delay is dropped -- or by the delay *)
@@ -725,7 +725,7 @@ Lemma reblock_ok t nid m k rcv (old : N -> Prop) drc mail arr a a' iv rest st :
       ([], Some (a', iv, st :: rest), nid, register (sid s') (deadline s') drc, mail) /\
     (wres (Some (a', iv, st :: rest)) + 1 <= 2 * length (st :: rest) + match a with AwKeep true _ _ _ => 1 | _ => 0 end)%nat.
 Proof.
-  intros Hk Hw Hrb Hrest Hs Hold Hivo Hro. destruct a as [s|v dl| | | | | |rearm d3 s sx|pre s]; try discriminate.
+  intros Hk Hw Hrb Hrest Hs Hold Hivo Hro. destruct a as [s|v dl| | | | | |rearm d3 s sx|pre s|kr chi cho]; try discriminate.
   destruct rearm; [|discriminate]. destruct Hk as [Hi Hd3]. cbn [aw_reblock] in Hrb. rewrite (dl_fin _ _ Hd3) in Hrb.
   destruct (deadline s <=? t) eqn:E; [discriminate|]. destruct (t <? t + d3) eqn:E3; [|discriminate]. injection Hrb as <-.
   cbn [aw_wake] in Hw. exists [t; 1], (reg (sid s) (t + d3)). split; [reflexivity|]. split.
@@ -828,7 +828,7 @@ Qed.
 (* a receive that is blocked: its shape *)
 Lemma waits_recv a iv ch : aw_kind a iv -> waits_on (Some a) = Some ch -> exists dl, a = AwTimeout (VRecv ch) dl.
 Proof.
-  destruct a as [s|v dl| | | | | | |]; try contradiction; cbn [waits_on]; try discriminate.
+  destruct a as [s|v dl| | | | | | | |]; try contradiction; cbn [waits_on]; try discriminate.
   destruct v; try contradiction; try discriminate. intros _ H. injection H as <-. exists dl. reflexivity.
 Qed.
 
@@ -1032,7 +1032,7 @@ Proof.
           split; [rewrite H3, Hc, app_nil_r; exact Hrs|]. split; [exact Hspec|].
           split; [unfold fut_sends; rewrite Hc, H3, En2; reflexivity|].
           split; [intros id H; exact H|].
-          split; [unfold wt; rewrite H3, Hc; destruct a as [| | | | | | |[] ? ? ?|]; cbn [length] in *; lia|].
+          split; [unfold wt; rewrite H3, Hc; destruct a as [| | | | | | |[] ? ? ?| |]; cbn [length] in *; lia|].
           split; [exact Ha|]. split; [exact Ge|split; [exact Gt|exact Gn]].
         * pose proof (aw_end_noreblock _ _ (A m) _ Hkind Ew Hwk Erb) as Eend. rewrite En3, Eend in H8, H13.
           destruct (Hscratch (t_log tk ++ aw_rec a (t_iv tk) (A m)) rest (aw_done t a (drv_of w m)) (iv_after a (t_iv tk)) (w_mail w) (A m) H4
